@@ -172,7 +172,10 @@ PROPS = {
         title="Events",
         lean=["LP.Props.C20", "LP.Props.C20frame", "LP.Props.C20ledger"],
         profiles=[("life", ALL_VARIANTS), ("chunks", ALL_VARIANTS), ("topup", GUAR)],
-        R={"ev": ANY},
+        # the endpoints whose events the property speaks about; an event some OTHER endpoint might emit is not a
+        # violation of C20 (rejected calls are reverted by the VM and cannot emit anything)
+        R={"ev": {"confirm", "claim", "blacklist", "refundUsers", "unblacklist", "setTicketPrice", "filter", "select",
+                  "addTicketsV2", "distribute", "setSchedule2"}},
         D={},
     ),
 }
